@@ -87,6 +87,8 @@ type VC struct {
 	guards    []string // guard stack for short-circuit evaluation
 	calleesWithContract map[string]bool
 	boxed       map[*types.Var]bool
+	callAssertSeen map[string]bool
+	fmtOf       map[string]string // Sprintf result term -> its constant format string
 	boxedAddr   map[*types.Var]bool // boxed because the address is taken (or a pointer method is called)
 	boxScanned  map[ast.Node]bool
 	inlineStack []*types.Func
@@ -103,6 +105,7 @@ type VC struct {
 	inTypeInv   bool
 	compLeafT   map[string]types.Type
 	loopIndex   map[ast.Node]int
+	callIndex   map[*ast.CallExpr]int // ordinal (source order) of a call among the calls of the same callee name
 	axiomsLoaded bool
 	frameTargets map[string][]string
 	frameWhole  bool
@@ -118,7 +121,7 @@ func newVC(w *World, pkg *PkgInfo, fd *ast.FuncDecl, c *Contract) *VC {
 	vc := &VC{w: w, pkg: pkg, fd: fd, contract: c, decls: map[string]string{}, axiomSeen: map[string]bool{}, axiomKeys: map[string][]string{}, strlits: map[string]string{},
 		typeTags: map[string]int{}, oblCount: map[string]int{}, maxPaths: 4000, uncontracted: map[string]bool{}, depsUsed: map[string]bool{},
 		dropped: map[string]bool{}, written: map[string]bool{}, wraps: map[string]bool{}, noSafety: map[string]bool{}, mode: "contract",
-		calleesWithContract: map[string]bool{}, boxed: map[*types.Var]bool{}, boxedAddr: map[*types.Var]bool{}, boxScanned: map[ast.Node]bool{}, assumptions: map[string]bool{},
+		calleesWithContract: map[string]bool{}, boxed: map[*types.Var]bool{}, boxedAddr: map[*types.Var]bool{}, callAssertSeen: map[string]bool{}, fmtOf: map[string]string{}, boxScanned: map[ast.Node]bool{}, assumptions: map[string]bool{},
 		sentinels: map[string]bool{}, compSort: map[string]string{}, hidden: map[string]*types.Var{}, compLeafT: map[string]types.Type{}, epochAlloc: map[int]string{0: "Alloc0"}}
 	vc.curInfo = pkg.P.TypesInfo
 	vc.curPkg = pkg
@@ -281,13 +284,25 @@ func (vc *VC) heapSymWF(sym, comp, sort, alloc string) {
 	}
 	var facts []string
 	T := vc.compLeafT[comp]
+	// "references stored in the heap point to allocated objects" is stated for the cells of objects that exist
+	// when the heap symbol is introduced only: cells of objects allocated later (e.g. by a callee whose contract
+	// describes the fresh object it returns) hold references to objects that did not exist yet.
+	rowAlloc := func(f string) string {
+		switch lvl {
+		case 1:
+			return smtImp(sel(alloc, "r"), f)
+		case 2:
+			return smtImp(sel(alloc, "a"), f)
+		}
+		return f
+	}
 	switch {
 	case strings.HasSuffix(comp, "#arr"):
-		facts = append(facts, smtOr(smtEq(cell, "0"), sel(alloc, cell)))
+		facts = append(facts, rowAlloc(smtOr(smtEq(cell, "0"), sel(alloc, cell))))
 	case strings.HasSuffix(comp, "#len"), strings.HasSuffix(comp, "#off"), strings.HasSuffix(comp, "#cap"):
 		facts = append(facts, app("<=", "0", cell, "2305843009213693952"))
 	case T != nil && isRef(T):
-		facts = append(facts, smtOr(smtEq(cell, "0"), sel(alloc, cell)))
+		facts = append(facts, rowAlloc(smtOr(smtEq(cell, "0"), sel(alloc, cell))))
 	case T != nil:
 		if lo, hi, ok := intRange(T); ok {
 			facts = append(facts, app("<=", lo, cell, hi))
@@ -686,6 +701,16 @@ func (vc *VC) strLitDistinct() string {
 		ns = append(ns, vc.strlits[k])
 	}
 	return "(distinct " + strings.Join(ns, " ") + ")"
+}
+
+// litOfTerm: the Go string literal a term stands for, if it is one.
+func (vc *VC) litOfTerm(t string) (string, bool) {
+	for s, n := range vc.strlits {
+		if n == t {
+			return s, true
+		}
+	}
+	return "", false
 }
 
 func (vc *VC) typeTag(T types.Type) string {
